@@ -176,7 +176,7 @@ def run_unit(unit, workdir, seed=None, rlimit=None, do_canary=True, keep=None):
         it = None
         for x in item_ranges:
             if x["start"] <= line <= x["end"]: it = x
-        return CONF.get("fragment_props", {}).get(fr, u["props"]), it
+        return u.get("fragment_props", {}).get(fr, u["props"]), it
 
     trust = []
     for ln, tx in enumerate(lines, 1):
